@@ -247,6 +247,13 @@ def run(ctx):
         for sets in [[]] + ind.DIRECTED.get(name, [])[:1]:
             cls = case_class(name)
             cases.append(cls(t, sets, q[0], q[1:], "values-quantised", {"regime": regime}, with_spec=False))
+    # every averaging kind of the MA constructor inside an indicator (dispatch of MA::init), against the model and the formula
+    for name in ("Envelopes", "RelativeStrengthIndex"):
+        t = tabs[name]
+        r = ctx.rng.fork("c05k-" + name)
+        cs, regime = ind.candles_for(r, steps + 1, regime=r.choice(LIN_REGIMES))
+        for sets in ind.ma_kind_configs(t):
+            cases.append(case_class(name)(t, sets, cs[0], cs[1:], "values-ma-kind", {"regime": regime}, with_spec=name in im.SPECS))
     # long monotone legs: a trend with many consecutive new extremes (acceleration of the parabolic SAR up to its cap and beyond)
     r = ctx.rng.fork("c05-trend")
     tc = gens.trend_candles(r, [(60, 0.004), (45, -0.005), (80, 0.01)])
